@@ -50,7 +50,21 @@ def record(c):
         nit = 25 if c['complete'] else c['numiter']
         tr = sweepgen.record_dmrg(ptn, H, psi, c['alg'], nsw, nit, complete=c['complete'], basis_start=bs)
         if c['repeat'] and tr[-1].get('ev') == 'end':
-            sweepgen.record_dmrg(ptn, H, psi, c['alg'], 1, nit, tr=tr)
+            # a history: the user changes the state or the Hamiltonian between two invocations on the same objects
+            how = str(rng.choice(['none', 'scale_psi', 'quench_H', 'ortho_left']))
+            if how == 'scale_psi':
+                psi.A[int(rng.integers(c['L']))] *= 0.5
+            elif how == 'ortho_left':
+                psi.orthonormalize(mode='left')
+            elif how == 'quench_H' and not c['shift']:
+                H2 = sweepgen.make_hamiltonian(ptn, rng, c['L'], c['kind'])
+                if not c['qnums']:
+                    H2.zero_qnumbers()
+                if all(a.shape == b.shape for a, b in zip(H.A, H2.A)) and all(np.array_equal(x, y) for x, y in zip(H.qD, H2.qD)):
+                    for a, b in zip(H.A, H2.A):
+                        a[...] = b
+            alg2 = c['alg'] if rng.random() < 0.7 else ('dmrg2' if c['alg'] == 'dmrg1' else 'dmrg1')
+            sweepgen.record_dmrg(ptn, H, psi, alg2, 1, nit, tr=tr)
         return tr
     except BaseException as ex:  # noqa
         return [dict(ev='raise', exc=f'generator: {type(ex).__name__}: {str(ex)[:80]}')]
